@@ -257,7 +257,8 @@ def _moved_locals(rv):
     out = set()
 
     def op(o):
-        if o and o.get("k") == "move" and not o["p"]["p"]:
+        # a move out of a projection (`move ((_r as Ok).0)`) hands the payload — for token types, the guard — to the destination
+        if o and o.get("k") == "move" and not any(p["k"] == "deref" for p in o["p"]["p"]):
             out.add(o["p"]["l"])
     k = rv["k"]
     if k == "use":
